@@ -7,6 +7,8 @@ CLAIMED = {
          "CFG must-pass-through / dominance / guard rules, who-may-call and who-may-write tables, reaching-definition dataflow (STALE, NOTOUCH) over the whole library"),
  "C02": ("Chase-Lev skeleton (fence, last-element CAS, bottom restore, steal order, publish order, growth), writers table, owner discipline, steal index table, idle loop",
          "CFG dominance / fence / guard rules + enumerated index tables over work_stealing_deque.c and the scheduler"),
+ "C08": ("fd-table bounds followed inter-procedurally from the libc shims, should_block truth table, F_SETFL/FIONBIO mode tables, retry-template agreement of all shims under enumerated scenarios, fd>=0 comparisons, shim pointer resolution, close/poller lock and order rules",
+         "inter-procedural forced-branch reachability over enumerated descriptor classes and scenarios (BOUNDS / TABLE / SIBLING rules) on fiber_io.c and fiber_event_native.c"),
  "C10": ("fairness certificate: push/pop deque fields differ, swap only on empty, successor re-queue",
          "CFG/AST who-pushes-where + guarded-swap rules over the scheduler"),
 }
